@@ -110,6 +110,143 @@ def main(x0, x1):
 ]
 
 
+def _grid2():
+    vals = [N.fin(-1), N.fin(1), N.fin(2), N.nan()]
+    return [[a, b] for a in vals for b in vals]
+
+
+def _L1(v):
+    return [N.fin(v), N.fin(v + 1)]
+
+
+def _L2(v):
+    return [_L1(v), _L1(v + 10)]
+
+
+def _L3(v):
+    return [_L2(v), _L2(v + 100)]
+
+
+# nested if/else with arms that return: which definitions reach the read after the join (all branch combinations)
+for _src in ["""
+    if a > 0:
+        if b > 0:
+            return 100
+        else:
+            x = 2
+    else:
+        x = 3
+    return x
+""", """
+    x = 1
+    if a > 0:
+        x = 4
+    else:
+        if b > 0:
+            x = 5
+        else:
+            return 200
+    return x
+""", """
+    x = 1
+    if a > 0:
+        if b > 0:
+            return 300
+        else:
+            x = 6
+    else:
+        pass
+    return x
+""", """
+    x = 1
+    i = 0
+    while i < 2:
+        if a > 0:
+            x = x + 1
+            if b > i:
+                return 300
+            else:
+                x = 6
+        else:
+            if b > 0:
+                x = 7
+            else:
+                return x
+        i = i + 1
+    return x
+""", """
+    x = 1
+    with fp.REAL:
+        if a > 0:
+            if b > 0:
+                x = 8
+            else:
+                if a > 1:
+                    return 400
+                else:
+                    x = 9
+        else:
+            x = x * 0
+    return x
+"""]:
+    CORPUS.append(('import fpy2 as fp\n\n@fp.fpy\ndef main(a, b):' + _src, _grid2()))
+
+# nested lists unified by a conditional expression / a list literal / a store, a row bound before the
+# unification, a write through a row of the result (aliasing through element regions)
+for _sig, _body, _args in [
+    ('xss: list[list[fp.Real]], yss: list[list[fp.Real]], c: bool', """
+        r = yss[0]
+        zss = xss if c else yss
+        w = zss[0]
+        w[0] = 99
+        return r[0]
+""", [[_L2(1), _L2(5), True], [_L2(1), _L2(5), False]]),
+    ('xss: list[list[fp.Real]], yss: list[list[fp.Real]], c: bool', """
+        r = xss[0]
+        zss = xss if c else yss
+        w = zss[0]
+        w[0] = 99
+        return r[0]
+""", [[_L2(1), _L2(5), True], [_L2(1), _L2(5), False]]),
+    ('xss: list[list[fp.Real]], yss: list[list[fp.Real]]', """
+        r = yss[0]
+        zsss = [xss, yss]
+        m = zsss[1]
+        w = m[0]
+        w[0] = 99
+        return r[0]
+""", [[_L2(1), _L2(5)]]),
+    ('xsss: list[list[list[fp.Real]]], yss: list[list[fp.Real]]', """
+        r = yss[0]
+        xsss[0] = yss
+        m = xsss[0]
+        w = m[0]
+        w[0] = 99
+        return r[0]
+""", [[_L3(1), _L2(5)]]),
+    ('xss: list[list[fp.Real]]', """
+        r = xss[0]
+        yss = xss[0:1]
+        w = yss[0]
+        w[0] = 99
+        return r[0]
+""", [[_L2(1)]]),
+    ('xss: list[list[fp.Real]]', """
+        r = xss[0]
+        for w in xss:
+            w[0] = 99
+        return r[0]
+""", [[_L2(1)], [[]]]),
+    ('xs: list[fp.Real], ys: list[fp.Real]', """
+        t = (xs, ys)
+        a, w = t
+        w[0] = 99
+        return ys[0]
+""", [[_L1(1), _L1(5)]]),
+]:
+    CORPUS.append((f'import fpy2 as fp\n\n@fp.fpy\ndef main({_sig}):\n    with fp.FP64:' + _body, _args))
+
+
 class _Timeout(Exception):
     pass
 
@@ -149,6 +286,8 @@ def shadowed_for_targets(fd, du):
 def arg_json(a):
     if isinstance(a, list):
         return [arg_json(x) for x in a]
+    if isinstance(a, bool):
+        return a
     return {'kind': a.kind, 's': a.s, 'q': None if a.q is None else str(a.q)}
 
 
@@ -156,6 +295,8 @@ def arg_of_json(j):
     from fractions import Fraction
     if isinstance(j, list):
         return [arg_of_json(x) for x in j]
+    if isinstance(j, bool):
+        return j
     return N(j['kind'], j['s'], None if j['q'] is None else Fraction(j['q']))
 
 
@@ -353,7 +494,7 @@ def run(ck):
                      '(or representable_classes omits a class the context can produce)', {'entry': tabs[i]})
 
     # ---- (1)+(2) generated programs
-    nprog = 600 if thorough else 120
+    nprog = 600 if thorough else 100
     nargs = 8 if thorough else 4
     cases, info = [], []
     t0 = time.time()
